@@ -19,7 +19,9 @@ is exported exactly (`as_integer_ratio`) and the Lean driver decides `μ_i ∈ R
 (`Accuracy.inBox` / `Accuracy.inEll`).  If the truth left a region the implication has no premise:
 the run is counted (`premise_failed`) and not judged.  At termination (S = ∅) the driver evaluates
 the two conclusions exactly on the true means: (a) `Accuracy.accA`, (b) `Accuracy.accB` with the
-algorithm's own α and ε (R).  For Auer the driver also evaluates, per round, the (stronger) premise
+algorithm's ε and an α computed independently of the code under test (`alpha_of`) (R).  Structured
+families: `acute-corner` (anisotropic boxes on acute cones), `ell-correlated` (|ρ| ≤ 0.95 ellipsoids whose
+wrong-axes twin would be ordered), `window` incl. cones with rows of norm < 1.  For Auer the driver also evaluates, per round, the (stronger) premise
 of the Lean theorem `auer_final_accurate` (`errw`: ‖c − μ‖_∞ ≤ min_d β_d); a failed conclusion under
 that premise gets its own key.  Keys of the genuine defects found: `rect-slack-objective-space-units`
 (D6), `auer-scalar-M-vs-smallest-width`, `auer-widths-by-position` (D2, fixed in /repo; regression).
@@ -52,7 +54,8 @@ RULE = ("cases: (algorithm ∈ {PaVeBa, PaVeBaGP-IH/DE, PaVeBaPartialGP-rect/ell
         "design has gap within [ε/2, 2ε]; distinct by the whole case")
 ASSUMPTIONS = [
     "containment of the truth is decided exactly on the exported floats; ellipsoids as {x | (x−c)ᵀΣ⁻¹(x−c) ≤ α²}",
-    "conclusion (b) is evaluated with the algorithm's exported α (SOCP value) and ε·(1+2^-20)",
+    "conclusion (b) is evaluated with an α computed in the harness (own cvxpy problem per facet, closed form for "
+    "2×2 cones; never vopy.utils.get_alpha) and ε·(1+2^-20); cones include row-scaled versions (norms ≠ 1)",
     "the 'decided round' replay compares only rounds whose geometry answers are determined by the true means "
     "with margin ≥ 1% of the region size + 1e-7",
 ]
@@ -78,20 +81,84 @@ def cone_W(case):
 
 
 def interior_direction(W):
-    """a vector u with W u > 0 (unit ∞-norm); W^T 1 works for the bundled exact cones"""
+    """a vector u well inside the cone (unit ∞-norm): every facet functional, measured in units of its row norm,
+    is comfortably positive — independent of how the rows are scaled"""
     W = np.array(W, dtype=float)
-    u = W.sum(axis=0)
-    if np.all(W @ u > 0):
-        return u / np.abs(u).max()
-    # fall back: least-norm solution of W u = 1
-    u = np.linalg.pinv(W) @ np.ones(len(W))
-    if np.all(W @ u > 0):
-        return u / np.abs(u).max()
-    return None
+    norms = np.linalg.norm(W, axis=1)
+    cands = []
+    sol, *_ = np.linalg.lstsq(W, norms, rcond=None)          # equal normalised margins (exact when N = m)
+    cands.append(sol)
+    cands.append((W / norms[:, None]).sum(axis=0))
+    cands.append(np.linalg.pinv(W) @ np.ones(len(W)))
+    best, best_margin = None, 0.0
+    for u in cands:
+        nu = np.abs(u).max()
+        if nu == 0 or not np.all(np.isfinite(u)):
+            continue
+        u = u / nu
+        margin = float(np.min((W @ u) / norms))
+        if margin > best_margin:
+            best, best_margin = u, margin
+    return best if best_margin > 1e-3 else None
+
+
+_alpha_cache = {}
 
 
 def alpha_of(W):
-    return real_order(W).ordering_cone.alpha.flatten()
+    """α_n = max{w_n·x : W x ≥ 0, ‖x‖ ≤ 1}, computed HERE (one small cvxpy problem per facet, cached) and
+    not through `vopy.utils.get_alpha`: conclusion (b) and the generators must not depend on the code
+    under test.  For 2×2 cones the value is cross-checked against the closed form."""
+    key = tuple(tuple(float(x) for x in r) for r in W)
+    if key not in _alpha_cache:
+        import cvxpy as cp
+
+        Wn = np.array(W, dtype=float)
+        out = []
+        for n in range(len(Wn)):
+            x = cp.Variable(Wn.shape[1])
+            prob = cp.Problem(cp.Maximize(Wn[n] @ x), [Wn @ x >= 0, cp.norm(x, 2) <= 1])
+            prob.solve()
+            out.append(float(prob.value))
+        a = np.array(out)
+        if Wn.shape == (2, 2):
+            cf = alpha_closed_form_2x2(Wn)
+            if cf is not None and not np.allclose(a, cf, rtol=1e-6, atol=1e-9):
+                raise RuntimeError(f"independent alpha: cvxpy {a} vs closed form {cf}")
+            if cf is not None:
+                a = cf
+        _alpha_cache[key] = a
+    return _alpha_cache[key]
+
+
+def alpha_closed_form_2x2(Wn):
+    """pointed 2-D cone with two facets: the maximiser of w_n·x over C ∩ unit disc is w_n/‖w_n‖ if that lies in
+    C, else the unit generator (extreme ray) with the larger w_n·x"""
+    rays = []
+    for k in range(2):
+        r = np.array([-Wn[k][1], Wn[k][0]])          # direction along facet k
+        for sg in (1.0, -1.0):
+            v = sg * r / np.linalg.norm(r)
+            if np.all(Wn @ v >= -1e-12):
+                rays.append(v)
+    if len(rays) < 2:
+        return None
+    out = []
+    for n in range(2):
+        u = Wn[n] / np.linalg.norm(Wn[n])
+        if np.all(Wn @ u >= -1e-12):
+            out.append(float(np.linalg.norm(Wn[n])))
+        else:
+            out.append(float(max(0.0, max(Wn[n] @ v for v in rays))))
+    return np.array(out)
+
+
+ROW_SCALES = [0.25, 0.4, 0.5, 2.0, 3.0]
+
+
+def scaled_rows(rng, W):
+    """the same cone with every row multiplied by its own positive factor (rows of norm < 1 and > 1)"""
+    return [[float(x) * f for x in r] for r, f in zip(W, [rng.choice(ROW_SCALES) for _ in W])]
 
 
 def dominates(W, a, b):
@@ -572,19 +639,26 @@ def gen_adv(rng, n, m, alg):
     return adv
 
 
-def paveba_window_case(rng, tier):
+def paveba_window_case(rng, tier, small_rows=False):
     """PaVeBa (balls of one common radius r_t ∝ sqrt(log t / t)): a short chain with gaps in (ε, 3ε] and a
     contraction chosen so that r_1 starts just above the window (g+ε)/2 in which the better design is already
     in P (and useful) while the worse one is neither discarded nor decided — the rounds in which U matters."""
     m = 2
     cone = rng.choice(["orthant2", "orthant2", "acute2", "obtuse2", "redundant2"])
     W = [[float(x) for x in r] for r in EXACT_CONES[cone][0]]
+    scaled = small_rows or rng.random() < 0.5
+    if small_rows:      # rows of norm < 1: a slack computed from normalised rows would be too generous
+        W = [[float(x) * f for x in r] for r, f in zip(W, [rng.choice([0.25, 0.4, 0.5]) for _ in W])]
+    elif scaled:
+        W = scaled_rows(rng, W)
     alpha = alpha_of(W)
     eps = rng.choice([0.25, 0.125, 0.5])
     u = interior_direction(W)
     per = (np.array(W) @ u) / alpha
     n = rng.randint(2, 3)
-    fs = [rng.choice([1.2, 2.0, 3.0]) for _ in range(n - 1)]
+    fs = [rng.choice([1 + 2.0 ** -3, 1.2, 1.5, 2.0, 3.0]) for _ in range(n - 1)]
+    if small_rows:
+        fs[0] = rng.choice([1 + 2.0 ** -3, 1.2, 1.5])
     base = np.array([core.dyadic(rng, -4, 4, 2) for _ in range(m)])
     Y, cur = [list(base)], base
     for f in fs:
@@ -596,7 +670,9 @@ def paveba_window_case(rng, tier):
     # radius (Euclidean) at which a gap-g pair stops being separable: ≈ (g+ε)·min_n α_n/‖w_n‖ / 2
     scale = float(np.min(alpha / np.linalg.norm(np.array(W), axis=1)))
     target = rng.choice([0.8, 1.1, 1.6]) * (max(fs) + 1) * eps * scale / 2
-    return {"kind": "run", "alg": "PaVeBa", "cone": cone, "shape": "window", "Y": Y, "eps": eps, "delta": delta,
+    extra = {"W": W} if scaled else {}
+    return {"kind": "run", "alg": "PaVeBa", "cone": cone + ("~rows-scaled" if scaled else ""), **extra,
+            "shape": "window", "Y": Y, "eps": eps, "delta": delta,
             "noise_var": noise_var, "conf": r1_unit / target, "rounds": 60,
             "adv": {"mode": rng.choice(["centered", "centered", "lift-dominated", "sink-dominated", "rotating"]),
                     "frac": rng.choice([0.25, 0.5]), "sd0": [[1.0] * m] * n, "shrink": [0.5] * n,
@@ -617,6 +693,9 @@ def gen_case(rng, tier, alg=None, shape=None):
     else:
         cone = rng.choice(CONES2 if m == 2 else CONES3)
     W = [[float(x) for x in r] for r in EXACT_CONES[cone][0]]
+    scaled = alg != "Auer" and rng.random() < 0.3
+    if scaled:
+        W = scaled_rows(rng, W)
     alpha = alpha_of(W)
     eps = rng.choice([0.125, 0.25, 0.1, 0.3, 0.5])
     nmax = 8 if tier == "thorough" else 6
@@ -626,6 +705,9 @@ def gen_case(rng, tier, alg=None, shape=None):
     case = {"kind": "run", "alg": alg, "cone": cone, "shape": shape, "Y": Y, "eps": eps,
             "delta": rng.choice([0.05, 0.1, 0.01]), "noise_var": rng.choice([0.01, 0.0001, 0.04]),
             "conf": rng.choice([32, 16, 64, 8]), "adv": gen_adv(rng, n, m, alg)}
+    if scaled:
+        case["W"] = W
+        case["cone"] = cone + "~rows-scaled"
     if alg in GP_ALGS:
         case["batch"] = rng.choice([1, 1, 2, 3])
         case["conf"] = rng.choice([32, 16, 64])
@@ -725,12 +807,24 @@ class BoxAdversary(Adversary):
         f = float(self.adv.get("tail_shrink", 0.5)) ** max(0, t - (len(H) - 1))
         return off * f, np.maximum(half * f, FLOOR)
 
+    def _shapes(self, t):
+        """ellipsoid shape matrices M_i (displayed region {x | (x−c)ᵀ M_i⁻¹ (x−c) ≤ half_i[0]²}); identity if the
+        history entry has none"""
+        H = self.adv["history"]
+        k = min(t, len(H) - 1)
+        if len(H[k]) > 2:
+            return np.array(H[k][2], dtype=float)
+        return np.stack([np.eye(self.m)] * self.n)
+
     def covs(self, t):
         _, half = self._entry(t)
         return np.stack([np.diag(h ** 2) for h in half])
 
     def posterior(self, t, scale, ell, S=(), P=()):
         off, half = self._entry(t)
+        if ell:
+            M = self._shapes(t)
+            return self.Y + off, np.stack([M[i] * (half[i][0] / scale) ** 2 for i in range(self.n)])
         sd = half / scale
         return self.Y + off, np.stack([np.diag(x ** 2) for x in sd])
 
@@ -857,6 +951,95 @@ def corner_case(rng, alg, cones=None):
     return None
 
 
+# --------------------------------------------------------------------------------------------
+# structured family: strongly correlated, anisotropic ellipsoids (PaVeBaGP-DE)
+# --------------------------------------------------------------------------------------------
+def ell_support(M, h, w):
+    return h * float(np.sqrt(max(w @ M @ w, 0.0)))
+
+
+def wrong_axes(M):
+    """ellipsoid shapes with the eigenvalues of M but other axes: what a predicate reasons about when it whitens
+    with the wrong factor (untransposed Cholesky factor of the precision matrix) or mirrors the correlation"""
+    out = []
+    try:
+        L = np.linalg.cholesky(np.linalg.inv(M))
+        out.append(np.linalg.inv(L.T @ L))
+        out.append(np.linalg.inv(np.linalg.cholesky(M).T @ np.linalg.cholesky(M)) @ M @ M)
+    except np.linalg.LinAlgError:
+        pass
+    Mm = M.copy()
+    Mm[~np.eye(len(M), dtype=bool)] *= -1.0
+    if np.all(np.linalg.eigvalsh(Mm) > 0):
+        out.append(Mm)
+    return out
+
+
+ELL_CONES = ["orthant2", "orthant2", "acute2", "obtuse2", "skew2", "orthant3", "acute3"]
+
+
+def ell_corr_case(rng, tries=300):
+    """PaVeBaGP-DE: victim 0 and witness 1 with μ_1 − μ_0 just outside the cone; both displayed ellipsoids strongly
+    correlated (|ρ| ≤ 0.95, both signs) and anisotropic, posterior means pushed along the long axis (truth at
+    Mahalanobis depth ≤ 0.9).  Accepted when the true ellipsoids are NOT ordered while ellipsoids with the same
+    eigenvalues but wrong axes would be: a predicate that rotates / mirrors Σ discards the victim wrongly."""
+    for _ in range(tries):
+        cname = rng.choice(ELL_CONES)
+        W = [[float(x) for x in r] for r in EXACT_CONES[cname][0]]
+        Wn = np.array(W)
+        N, m = Wn.shape
+        rho = rng.choice([0.8, 0.9, 0.95]) * rng.choice([-1.0, 1.0])
+        if m == 3:
+            rho = abs(rho) if rng.random() < 0.7 else -0.45
+        D = np.diag([rng.choice([0.5, 1.0, 2.0]) for _ in range(m)])
+        R = (1 - rho) * np.eye(m) + rho * np.ones((m, m))
+        M = D @ R @ D
+        if np.min(np.linalg.eigvalsh(M)) <= 1e-6:
+            continue
+        h = rng.choice([0.05, 0.1, 0.2])
+        n0 = rng.randrange(N)
+        sup = np.array([ell_support(M, h, Wn[n]) for n in range(N)])
+        target = 2 * 2.5 * sup + rng.choice([0.1, 0.3])
+        target[n0] = -rng.choice([0.05, 0.1, 0.25]) * 2 * sup[n0]
+        d, *_ = np.linalg.lstsq(Wn, target, rcond=None)
+        fd = Wn @ d
+        if not (fd[n0] < -1e-6 and np.all(np.delete(fd, n0) > 0)):
+            continue
+        ev, evec = np.linalg.eigh(M)
+        axis = evec[:, int(np.argmax(ev))] * np.sqrt(np.max(ev))      # Mahalanobis length 1
+        f = rng.choice([0.5, 0.9])
+        off0 = f * h * axis * rng.choice([-1.0, 1.0])
+        off1 = f * h * axis * rng.choice([-1.0, 1.0])
+        c = d + off1 - off0
+        true_min = np.array([Wn[n] @ c - 2 * ell_support(M, h, Wn[n]) for n in range(N)])
+        if np.all(true_min >= -1e-9):
+            continue                                                   # really ordered: nothing to see
+        fooled = False
+        for Mw in wrong_axes(M):
+            wm = np.array([Wn[n] @ c - 2 * ell_support(Mw, h, Wn[n]) for n in range(N)])
+            if np.all(wm >= 1e-4):
+                fooled = True
+        if not fooled:
+            continue
+        Y = [[0.0] * m, [float(x) for x in d]]
+        off = [[float(x) for x in off0], [float(x) for x in off1]]
+        shapes = [M.tolist(), M.tolist()]
+        if rng.random() < 0.5:
+            u = interior_direction(W)
+            Y.append([float(x) for x in (-6.0 * u - np.abs(d))])
+            off.append([0.0] * m)
+            shapes.append(np.eye(m).tolist())
+        n = len(Y)
+        return {"kind": "run", "alg": "PaVeBaGP-DE", "cone": cname, "shape": "ell-correlated", "Y": Y,
+                "eps": rng.choice([0.01, 0.05]), "delta": 0.1, "noise_var": 0.0001, "conf": rng.choice([1, 32]),
+                "batch": 1,
+                "adv": {"mode": "boxes", "frac": 1.0, "sd0": [[1.0] * m] * n, "shrink": [0.5] * n,
+                        "seed": rng.randrange(1 << 30), "tail_shrink": 0.5, "rho": rho,
+                        "history": [[off, [[h] * m] * n, shapes],
+                                    [[[0.0] * m] * n, [[2.0 ** -8] * m] * n, shapes]]}}
+    return None
+
+
 class D6Adversary(Adversary):
     """boxes of half-widths (Hx, Hy) for both designs (whatever the scale), design 0's centre pushed towards
     +x, design 1's towards −x by frac·Hx: facet 1 = (2,1) still allows `not dominated`, facet 2 = (1,2)
@@ -884,6 +1067,14 @@ def gen(ctx):
         c = corner_case(rng, RECT_ALGS[k % 2])
         if c is not None:
             yield c
+    # structured family: strongly correlated anisotropic ellipsoids (PaVeBaGP-DE)
+    for k in range(ctx.n(10, 120)):
+        c = ell_corr_case(rng)
+        if c is not None:
+            yield c
+    # PaVeBa on cones whose rows are not unit vectors (α must scale with the rows)
+    for k in range(ctx.n(3, 60)):
+        yield paveba_window_case(rng, ctx.tier, small_rows=True)
     # structured sweep: every algorithm × a few shapes
     total = ctx.n(64, 1200)
     k = 0
@@ -948,7 +1139,10 @@ def run_case(ctx, case):
     if name == "Auer":
         alpha = np.ones(m)
     else:
-        alpha = np.asarray(alg.cone_alpha, dtype=float).reshape(-1)
+        alpha = alpha_of(W)     # independent of vopy.utils.get_alpha (the algorithm's own α is only compared)
+        own = np.asarray(alg.cone_alpha, dtype=float).reshape(-1)
+        if own.shape != alpha.shape or not np.allclose(own, alpha, rtol=1e-5, atol=1e-8):
+            ctx.count("alg_alpha_differs_from_independent_alpha_info")
     eps_l = float(alg.epsilon) * (1 + 2.0 ** -20)
     ans = ctx.ask("final", core.qmat(W), core.qvec(alpha), core.q(eps_l), core.qmat(Y), core.nats(P))
     parts = ans.split(" ")
